@@ -257,6 +257,8 @@ def mixed_strategy(draw, tier):
                             for k in draw(st.sets(st.integers(0, 12), max_size=6))},
         'starts': draw(st.lists(st.sampled_from([0, 0, 0, 40, 300]), min_size=3, max_size=3)),
         'ipc': draw(st.booleans()),
+        # the ephemeral branch crashes right after its i-th publish of a single topic message - possibly between the topic messages of one set - and stays dead
+        'x_dies_at': draw(st.sampled_from([None, None]) | st.integers(0, 40)),
     }
 
 
@@ -274,7 +276,10 @@ def run_mixed(case):
         nodes.append({'id': 'G', 'sources': ['X'], 'nout': 0, 'beh': {'kind': 'sink', 'work': [0]}, 'start': st_[1]})
     nodes.append({'id': 'K', 'sources': ['S' if case['other'] == 'sync' else 'S?', 'X' + case['mark'] + scen.sub_suffix(case['sub'])], 'nout': 0,
                   'beh': {'kind': 'sink', 'work': case['k_work']}, 'start': st_[2]})
-    p = harness.Pipeline(nodes, net=case['net'], seed=9, ipc=case.get('ipc', False))
+    net = case['net']
+    if case.get('x_dies_at') is not None and case['xkind'] == 'rejoin':
+        net = {**net, 'dies_at_pub': [['X', case['x_dies_at']]]}
+    p = harness.Pipeline(nodes, net=net, seed=9, ipc=case.get('ipc', False))
     try:
         p.start_all()
 
@@ -285,6 +290,9 @@ def run_mixed(case):
         p.run(9_000 + case['n'] * 300, stop=done)
         calls, pubs = p.process_calls('K'), p.publishes()
         raised = [(k, e) for k, e in p.ends.items() if e['how'] == 'raised']
+        died = any(r[0] == 'died' for r in p.world.log)
+        xp = [r for r in pubs if r['node'] == 'X' and r['kind'] == 'data']
+        died_mid = died and bool(xp) and xp[-1]['topic'] != '//'       # the heartbeat / topics message closes a set
     finally:
         p.finish()
     classes = [f'net {case["net"]["cls"]}', f'other source {case["other"]}', f'ephemeral publisher {case["xkind"]}', f'sub {case["sub"]["form"]}', f'mark {case["mark"]}']
@@ -297,17 +305,14 @@ def run_mixed(case):
                 pubtopics.setdefault((r['inc'], r['mid']), set()).update(r['topics'])
             if r['uid']:
                 uid2pub[r['uid']] = (r['inc'], r['mid'], r['topic'].strip('/'))
-    # (not judged when publishes of X towards K are lost: a half-received ephemeral set that is never completed - the source pausing right after a
-    # lost message - holds K's recv() and with it its synchronized stream; that is a hazard of ephemeral *sources*, outside what C05 states about
-    # ephemeral consumers, see DESIGN section 8)
-    if case['other'] == 'sync' and not case['net'].get('drops_to'):     # the synchronized stream must arrive whole, whatever the ephemeral source does or does not send
+    if case['other'] == 'sync':     # the synchronized stream must arrive whole, whatever the ephemeral source does or does not send (also a set of it that is never completed)
         sseq = [pv['seq'] for rec in calls for t, pv in rec['in'].items() if t == 'main' and pv and pv.get('origin') == 'S']
         if sseq != list(range(case['n'])):
             return bad(f'K received {len(sseq)} of the {case["n"]} frames of its synchronized source S (last {sseq[-1] if sseq else None}) while its ephemeral source X kept publishing: '
                        f'the synchronized stream was held up', 'mixed-receiver:sync-stream-stalled', classes)
         t_last = max(rec['t'] for rec in calls if any(t == 'main' and pv and pv.get('origin') == 'S' for t, pv in rec['in'].items())) / 1e6
         limit = max(case['starts']) + case['n'] * (max(case['src_work']) + max(case['k_work']) + 110) + 2500      # generous: one request interval per frame on top of the work
-        if t_last > limit and case['net']['cls'] in ('fast', 'lan', 'sub_poll'):     # with link delays above the request interval the stream is latency-bound, no fixed pace to hold it to
+        if t_last > limit and case['net']['cls'] in ('fast', 'lan', 'sub_poll') and not case['net'].get('drops_to'):     # every lost piece of an ephemeral set may cost one poll interval     # with link delays above the request interval the stream is latency-bound, no fixed pace to hold it to
             return bad(f'K got the last frame of its synchronized source at {t_last:.0f} ms (a run of {case["n"]} frames, expected well before {limit} ms) while its ephemeral source X '
                        f'kept publishing: the synchronized stream was held up', 'mixed-receiver:sync-stream-late', classes)
     last, with_x, with_both, alone = None, 0, 0, 0
@@ -332,6 +337,7 @@ def run_mixed(case):
             return bad(f'K got X message {mid} after message {last[1]}', 'mixed-receiver:ephemeral-out-of-order', classes)
         last = (inc, mid)
     if case['net'].get('drops_to'): classes.append('publishes towards the listener lost')
+    if died: classes.append('ephemeral branch crashed' + (' between the topic messages of one set' if died_mid else ''))
     if case.get('x_topics_by_seq'): classes.append('ephemeral publisher varies its topics')
     if with_both: classes.append('ephemeral set delivered together with a synchronized frame')
     if alone: classes.append('ephemeral set delivered alone')
